@@ -6,6 +6,13 @@
 //! allowlists).  Part B: `Channel::sign_holder_htlc_tx` / `sign_counterparty_htlc_tx` on the
 //! canonical BOLT-3 HTLC-success/timeout transaction and mutations of it.
 //!
+//! Both parts are ALSO sent through the protocol handler (vls-protocol-signer `handler.rs`) as wire messages,
+//! for a share of the cases: `SignAny{DelayedPayment,RemoteHtlc,Penalty}ToUs` (root handler: input index, peer
+//! id, dbid), the per-channel `Sign{DelayedPayment,RemoteHtlc,Penalty}ToUs` (input 0), `SignRemoteHtlcTx`,
+//! `SignLocalHtlcTx` / `SignAnyLocalHtlcTx`, protocol versions 4-6.  The handler's answer is judged by the very
+//! same reference judgement as the direct call (counters `hA.*` / `hB.*`, `handler.<Message>.*`; witnesses
+//! carry `entry_point: "protocol handler: <Message>"` and the wire details).
+//!
 //! The oracle is one-directional (Ok => allowed) and is written from the property text, BOLT-3 and
 //! docs/policy-controls.md; it never calls the validator.  Keys are derived here from the
 //! basepoints with the BOLT-3 formulas (SHA256 tweaks), scripts are built here opcode by opcode.
@@ -14,17 +21,19 @@ use lightning_signer::bitcoin;
 use lightning_signer::lightning;
 
 use bitcoin::absolute::LockTime;
-use bitcoin::bip32::{ChildNumber, DerivationPath, Xpriv, Xpub};
+use bitcoin::bip32::{ChildNumber, DerivationPath, Fingerprint, Xpriv, Xpub};
 use bitcoin::consensus::encode::serialize_hex;
 use bitcoin::hashes::{sha256, Hash, HashEngine};
 use bitcoin::key::CompressedPublicKey;
 use bitcoin::opcodes::all as opc;
+use bitcoin::psbt::Psbt;
 use bitcoin::script::{Builder, Instruction};
+use bitcoin::secp256k1::ecdsa::Signature;
 use bitcoin::secp256k1::{All, Message, PublicKey, Scalar, Secp256k1, SecretKey, XOnlyPublicKey};
 use bitcoin::sighash::{EcdsaSighashType, SighashCache};
 use bitcoin::transaction::Version;
 use bitcoin::{
-    Address, Amount, Network, OutPoint, Script, ScriptBuf, Sequence, Transaction, TxIn, TxOut,
+    Address, Amount, BlockHash, Network, OutPoint, Script, ScriptBuf, Sequence, Transaction, TxIn, TxOut,
     Txid, Witness,
 };
 use lightning::ln::chan_utils::{
@@ -41,7 +50,14 @@ use lightning_signer::node::Node;
 use lightning_signer::policy::simple_validator::make_default_simple_policy;
 use lightning_signer::util::test_utils::make_testnet_header;
 use serde_json::{json, Value};
+use std::sync::Arc;
 use std::time::Instant;
+use vls_protocol::model::{Bip32KeyVersion, DisclosedSecret, PubKey};
+use vls_protocol::msgs::{self, Message as WireMessage};
+use vls_protocol::psbt::PsbtWrapper;
+use vls_protocol::serde_bolt::{Octets, WithSize};
+use vls_protocol_signer::approver::PositiveApprover;
+use vls_protocol_signer::handler::{Error as HandlerError, Handler, InitHandler, RootHandler};
 use vls_verif::report::{self, finish, run_sharded, FinishSpec};
 use vls_verif::rng::fnv_str;
 use vls_verif::world::{ValidatorKind, World, WorldCfg};
@@ -271,6 +287,9 @@ fn reason_tag(msg: &str) -> String {
 
 struct ChanCtx {
     id: ChannelId,
+    /// what the node was given in `new_channel`; the protocol handler finds the channel by these
+    peer: [u8; 33],
+    dbid: u64,
     setup: ChannelSetup,
     holder: ChannelPublicKeys,
     next_holder: u64,
@@ -326,6 +345,8 @@ struct Env {
     max_feerate: u64,
     next_dbid: u64,
     seed: [u8; 32],
+    /// protocol handlers (one root handler per protocol version) on the CURRENT node; rebuilt after a restart
+    roots: Vec<(u32, RootHandler)>,
 }
 
 fn add_blocks(node: &Node, n: u32) -> Result<u32, String> {
@@ -422,6 +443,7 @@ impl Env {
             max_feerate: max_feerate as u64,
             next_dbid: 1,
             seed,
+            roots: vec![],
         };
         // one channel of each commitment type (order random), generated delays
         let mut types = vec![CommitmentType::StaticRemoteKey, CommitmentType::AnchorsZeroFeeHtlc];
@@ -504,7 +526,7 @@ impl Env {
             r.note("independent native key derivation differs from the signer's basepoints; falling back to the signer's per-commitment points (C18 judges this, not C09)");
             None
         };
-        Ok(ChanCtx { id, setup, holder, next_holder, commit_seed })
+        Ok(ChanCtx { id, peer, dbid, setup, holder, next_holder, commit_seed })
     }
 
     /// the per-commitment point of holder commitment n
@@ -617,6 +639,176 @@ impl Env {
                 }
             }
         }
+    }
+}
+
+// ---------------------------------------------------------------------------------------------
+// the protocol-handler entry: the same requests as wire messages (vls-protocol-signer handler.rs)
+// ---------------------------------------------------------------------------------------------
+
+/// share of the cases that are ALSO sent through the protocol handler (percent)
+const HANDLER_PCT: u64 = 35;
+const PROTOCOL_VERSIONS: [u32; 3] = [4, 5, 6];
+
+/// What a signing entry point answered, whichever way it was reached:
+/// Ok(Ok((signature, sighash byte))) / Ok(Err(refusal message)) / Err(panic message)
+type Answer = Result<Result<(Signature, u8), String>, String>;
+
+fn build_root(node: &Arc<Node>, version: u32) -> Result<RootHandler, String> {
+    let node = node.clone();
+    report::catch(move || {
+        let mut init = InitHandler::new(0, node, Arc::new(PositiveApprover()), version);
+        init.handle(WireMessage::HsmdInit(msgs::HsmdInit {
+            key_version: Bip32KeyVersion { pubkey_version: 0x043587CF, privkey_version: 0x04358394 },
+            chain_params: BlockHash::all_zeros(),
+            encryption_key: None,
+            dev_privkey: None,
+            dev_bip32_seed: None,
+            dev_channel_secrets: None,
+            dev_channel_secrets_shaseed: None,
+            hsm_wire_min_version: 2,
+            hsm_wire_max_version: version,
+        }))
+        .map_err(|e| format!("{:?}", e))?;
+        let root: RootHandler = init.into();
+        Ok::<_, String>(root)
+    })
+    .unwrap_or_else(|p| Err(format!("panic: {}", p)))
+}
+
+/// the reply of a `Sign*ToUs` / `Sign*HtlcTx` message as an `Answer` (None: not a `SignTxReply`)
+fn handler_answer(
+    res: Result<Result<Box<dyn msgs::SerBolt>, HandlerError>, String>,
+    name: &str,
+    r: &mut Report,
+) -> Option<Answer> {
+    match res {
+        Err(p) => Some(Err(p)),
+        Ok(Err(HandlerError::Signing(s))) | Ok(Err(HandlerError::Temporary(s))) => Some(Ok(Err(s.message().to_string()))),
+        Ok(Err(e)) => Some(Ok(Err(format!("{:?}", e)))),
+        Ok(Ok(reply)) => match reply.as_any().downcast_ref::<msgs::SignTxReply>() {
+            Some(rep) => match Signature::from_compact(&rep.signature.signature.0) {
+                Ok(sig) => Some(Ok(Ok((sig, rep.signature.sighash)))),
+                Err(_) => {
+                    r.count(&format!("handler.{}.reply_signature_unparsable", name));
+                    r.inconclusive(&format!("handler: the signature in the reply to {} does not parse", name));
+                    None
+                }
+            },
+            None => {
+                r.count(&format!("handler.{}.unexpected_reply_type", name));
+                r.inconclusive(&format!("handler: the reply to {} is not a SignTxReply", name));
+                None
+            }
+        },
+    }
+}
+
+fn answer_tag(a: &Answer) -> &'static str {
+    match a {
+        Err(_) => "panic",
+        Ok(Err(_)) => "refused",
+        Ok(Ok(_)) => "accepted",
+    }
+}
+
+/// The PSBT that accompanies the transaction in the raw-transaction messages.  The handler reads from it:
+/// the amount of the spent output (`inputs[input].witness_utxo.value`; every other input carries a different
+/// amount), the wallet path hint of a sweep (`outputs[0]` bip32 derivation / taproot key origin; the other
+/// outputs carry other paths), the witness script of the HTLC transaction's output (`outputs[0].witness_script`).
+/// It does not read the PSBT's own copy of the transaction, which differs from the outer one in some cases.
+fn request_psbt(
+    rng: &mut Rng,
+    tx: &Transaction,
+    amount_input: usize,
+    amount_sat: u64,
+    redeemscript: &Script,
+    hint_key: &PublicKey,
+    wallet_path: Option<(&DerivationPath, &[u32])>,
+    output_witscript: Option<&ScriptBuf>,
+) -> Option<(Psbt, Value)> {
+    let mut psbt = Psbt::from_unsigned_tx(tx.clone()).ok()?;
+    let spk = redeemscript.to_p2wsh();
+    let mut amounts = vec![];
+    for (i, inp) in psbt.inputs.iter_mut().enumerate() {
+        let v = if i == amount_input { amount_sat } else { amount_sat.wrapping_add(1 + rng.below(5000)) };
+        amounts.push(v.to_string());
+        inp.witness_utxo = Some(TxOut { value: Amount::from_sat(v), script_pubkey: spk.clone() });
+    }
+    let mut hint = "none";
+    if let Some((path, supplied)) = wallet_path {
+        for (i, out) in psbt.outputs.iter_mut().enumerate() {
+            let pth = if i == 0 {
+                if supplied.is_empty() && rng.bool() {
+                    continue; // no hint = the master path
+                }
+                path.clone()
+            } else {
+                if rng.bool() {
+                    continue;
+                }
+                path_of(&other_path(rng, supplied))
+            };
+            if tx.output[i].script_pubkey.is_p2tr() && rng.bool() {
+                out.tap_key_origins.insert(XOnlyPublicKey::from(*hint_key), (vec![], (Fingerprint::default(), pth)));
+                if i == 0 {
+                    hint = "tap_key_origins";
+                }
+            } else {
+                out.bip32_derivation.insert(*hint_key, (Fingerprint::default(), pth));
+                if i == 0 {
+                    hint = "bip32_derivation";
+                }
+            }
+        }
+    }
+    if let Some(ws) = output_witscript {
+        if let Some(o) = psbt.outputs.get_mut(0) {
+            o.witness_script = Some(ws.clone());
+        }
+    }
+    let inner_differs = rng.chance(1, 3);
+    if inner_differs {
+        // "CLN is sending an incorrect tx in the psbt, so use the outer one in the message instead"
+        psbt.unsigned_tx.version = Version(2);
+        psbt.unsigned_tx.lock_time = LockTime::ZERO;
+        for i in psbt.unsigned_tx.input.iter_mut() {
+            i.sequence = Sequence(i.sequence.0 ^ 1);
+        }
+    }
+    let info = json!({"psbt_input_amounts_sat": amounts, "psbt_output0_path_hint": hint,
+                      "psbt_inner_tx_differs_from_outer": inner_differs});
+    Some((psbt, info))
+}
+
+fn wire_tx(tx: &Transaction) -> WithSize<Transaction> {
+    WithSize(tx.clone())
+}
+
+fn wire_psbt(psbt: Psbt) -> WithSize<PsbtWrapper> {
+    WithSize(PsbtWrapper { inner: psbt })
+}
+
+impl Env {
+    /// one root handler per protocol version on the current node (a restart replaces the node)
+    fn ensure_roots(&mut self, r: &mut Report) -> bool {
+        if self.roots.len() == PROTOCOL_VERSIONS.len() && self.roots.iter().all(|(_, h)| Arc::ptr_eq(h.node(), &self.world.node)) {
+            return true;
+        }
+        self.roots.clear();
+        for v in PROTOCOL_VERSIONS {
+            match build_root(&self.world.node, v) {
+                Ok(h) => self.roots.push((v, h)),
+                Err(e) => {
+                    r.count("handler.not_built");
+                    r.note(&format!("protocol handler (version {}) could not be built: {}", v, e.chars().take(160).collect::<String>()));
+                    self.roots.clear();
+                    return false;
+                }
+            }
+        }
+        r.count("handler.roots_built");
+        true
     }
 }
 
@@ -922,6 +1114,7 @@ impl CaseId {
 }
 
 fn sweep_case(env: &mut Env, rng: &mut Rng, r: &mut Report, cid: &CaseId) -> Option<usize> {
+    let have_roots = env.ensure_roots(r);
     let kind = *rng.pick(&[SweepKind::Delayed, SweepKind::CpHtlc, SweepKind::Justice]);
     let ci = rng.usize(env.chans.len());
     let now = env.world.now();
@@ -1114,12 +1307,96 @@ fn sweep_case(env: &mut Env, rng: &mut Rng, r: &mut Report, cid: &CaseId) -> Opt
             SweepKind::Justice => chan.sign_justice_sweep(&tx, input, &rev_secret, &redeemscript, amount_sat, &wallet_path),
         })
     });
-    r.eval(1);
-    r.count(&format!("A.{}.calls", k));
+    let direct: Answer = match res {
+        Err(p) => Err(p),
+        Ok(Err(e)) => Ok(Err(e.message().to_string())),
+        Ok(Ok(sig)) => Ok(Ok((sig, EcdsaSighashType::All as u8))),
+    };
+    // (counter prefix, entry point, wire details, answer)
+    let mut answers: Vec<(&'static str, String, Value, Answer)> = vec![];
+    let direct_panicked = direct.is_err();
+    let direct_tag = answer_tag(&direct);
+    answers.push(("A", kind.entry().to_string(), Value::Null, direct));
 
-    let detail = |extra: Value| -> Value {
+    // ---- the same request as a wire message through the protocol handler ----
+    // (a panic of the direct call has poisoned the channel's slot: nothing more to learn from it)
+    if have_roots && !direct_panicked && rng.below(100) < HANDLER_PCT {
+        // the per-channel messages sign input 0; the root handler's take the input index, the peer id and the dbid
+        let legacy = input == 0 && rng.chance(2, 5);
+        let name = match (kind, legacy) {
+            (SweepKind::Delayed, false) => "SignAnyDelayedPaymentToUs",
+            (SweepKind::Delayed, true) => "SignDelayedPaymentToUs",
+            (SweepKind::CpHtlc, false) => "SignAnyRemoteHtlcToUs",
+            (SweepKind::CpHtlc, true) => "SignRemoteHtlcToUs",
+            (SweepKind::Justice, false) => "SignAnyPenaltyToUs",
+            (SweepKind::Justice, true) => "SignPenaltyToUs",
+        };
+        // `psbt.inputs[input]` / `wallet_paths[0]` in the handler: an index panic, not a refusal (counted only)
+        let sure_panic = input >= n_in || n_out == 0;
+        if sure_panic && !rng.chance(1, 4) {
+            r.count(&format!("handler.{}.not_sent_no_outputs_or_input_index_out_of_range", name));
+        } else if let Some((psbt, pinfo)) =
+            request_psbt(rng, &tx, input, amount_sat, &redeemscript, &env.acct.public_key, Some((&wallet_path, &supplied)), None)
+        {
+            let (version, root) = rng.pick(&env.roots);
+            let option_anchors = if rng.chance(1, 8) { !anchors } else { anchors };
+            let wtx = wire_tx(&tx);
+            let wpsbt = wire_psbt(psbt);
+            let wscript = Octets(redeemscript.to_bytes());
+            let peer_id = PubKey(c.peer);
+            let dbid = c.dbid;
+            let msg = match (kind, legacy) {
+                (SweepKind::Delayed, false) => WireMessage::SignAnyDelayedPaymentToUs(msgs::SignAnyDelayedPaymentToUs {
+                    commitment_number: commit_num, tx: wtx, psbt: wpsbt, wscript, input: input as u32, peer_id, dbid,
+                }),
+                (SweepKind::Delayed, true) => WireMessage::SignDelayedPaymentToUs(msgs::SignDelayedPaymentToUs {
+                    commitment_number: commit_num, tx: wtx, psbt: wpsbt, wscript,
+                }),
+                (SweepKind::CpHtlc, false) => WireMessage::SignAnyRemoteHtlcToUs(msgs::SignAnyRemoteHtlcToUs {
+                    remote_per_commitment_point: PubKey(remote_pcp.serialize()), tx: wtx, psbt: wpsbt, wscript,
+                    option_anchors, input: input as u32, peer_id, dbid,
+                }),
+                (SweepKind::CpHtlc, true) => WireMessage::SignRemoteHtlcToUs(msgs::SignRemoteHtlcToUs {
+                    remote_per_commitment_point: PubKey(remote_pcp.serialize()), tx: wtx, psbt: wpsbt, wscript, option_anchors,
+                }),
+                (SweepKind::Justice, false) => WireMessage::SignAnyPenaltyToUs(msgs::SignAnyPenaltyToUs {
+                    revocation_secret: DisclosedSecret(rev_secret.secret_bytes()), tx: wtx, psbt: wpsbt, wscript,
+                    input: input as u32, peer_id, dbid,
+                }),
+                (SweepKind::Justice, true) => WireMessage::SignPenaltyToUs(msgs::SignPenaltyToUs {
+                    revocation_secret: DisclosedSecret(rev_secret.secret_bytes()), tx: wtx, psbt: wpsbt, wscript,
+                }),
+            };
+            let hres = if legacy {
+                let h = root.for_new_client(1, PubKey(c.peer), c.dbid);
+                report::catch(|| h.handle(msg))
+            } else {
+                report::catch(|| root.handle(msg))
+            };
+            r.count(&format!("handler.{}.requests", name));
+            r.count(&format!("handler.protocol_version_{}.requests", version));
+            if let Some(ans) = handler_answer(hres, name, r) {
+                r.count(&format!("handler.{}.{}", name, match &ans { Err(_) => "panic", Ok(Err(_)) => "refused", Ok(Ok(_)) => "ok" }));
+                let t = answer_tag(&ans);
+                if t == direct_tag {
+                    r.count("handler.A.same_outcome_as_direct_call");
+                } else {
+                    // counted, not judged: the verdict on the handler's answer is the oracle's, below
+                    r.count(&format!("handler.A.{}.direct_{}_handler_{}", name, direct_tag, t));
+                }
+                let winfo = json!({"message": name, "protocol_version": version, "option_anchors": option_anchors,
+                                   "peer_id": hex::encode(c.peer), "dbid": c.dbid, "psbt": pinfo});
+                answers.push(("hA", format!("protocol handler: {}", name), winfo, ans));
+            }
+        } else {
+            r.count("handler.psbt_not_built");
+        }
+    }
+
+    let detail = |entry: &str, wire: &Value, extra: Value| -> Value {
         json!({
-            "entry_point": kind.entry(),
+            "entry_point": entry,
+            "wire_request": wire,
             "replay": cid.json(),
             "env": env.env_json(),
             "channel": c.summary(),
@@ -1141,114 +1418,7 @@ fn sweep_case(env: &mut Env, rng: &mut Rng, r: &mut Report, cid: &CaseId) -> Opt
         })
     };
 
-    let outcome;
     let mut poisoned = None;
-    match res {
-        Err(p) => {
-            outcome = "panic";
-            poisoned = Some(ci);
-            r.count(&format!("A.{}.panic", k));
-            r.set_add("A.panics", &p.chars().take(160).collect::<String>());
-        }
-        Ok(Err(e)) => {
-            outcome = "refused";
-            r.count(&format!("A.{}.refused", k));
-            let tag = reason_tag(e.message());
-            if bad.is_empty() && !other_refusal {
-                r.count(&format!("A.{}.clean.refused", k));
-                r.set_add(&format!("A.{}.clean_refusal_reasons", k), &tag);
-            } else if bad.len() == 1 && !other_refusal {
-                r.count(&format!("A.{}.only_bad_{}.refused", k, bad[0]));
-                r.count(&format!("A.any.only_bad_{}.refused", bad[0]));
-            }
-            if other_refusal {
-                r.count(&format!("A.{}.bad_index_or_commit_num.refused", k));
-            }
-            r.set_add("A.refusal_reasons", &tag);
-            if r.get(&format!("A.{}.refused", k)) <= 1 && cid.shard == 0 {
-                r.sample(detail(json!({"result": "refused", "message": e.message()})));
-            }
-        }
-        Ok(Ok(sig)) => {
-            outcome = "accepted";
-            r.count(&format!("A.{}.accepted", k));
-            // antecedents of the five rules
-            r.count("A.rule.version.checked");
-            r.count("A.rule.locktime.checked");
-            r.count("A.rule.sequence.checked");
-            r.count_n("A.rule.output.outputs_checked", classes.len() as u64);
-            r.count("A.rule.signature.checked");
-            if classes.len() >= 2 {
-                r.count("A.accepted.multi_output");
-                r.count(&format!("A.{}.accepted.multi_output", k));
-            }
-            if classes.is_empty() {
-                r.count("A.accepted.zero_outputs");
-            }
-            if tx.input.len() >= 2 {
-                r.count("A.accepted.multi_input");
-                if input != 0 {
-                    r.count("A.accepted.signed_input_not_0");
-                    if !ss.map(|s| seq_allowed(kind, anchors, cp_delay, s)).unwrap_or(false) {
-                        // observation only (lenient disjunction, see DESIGN.md C09)
-                        r.count("A.accepted.signed_input_sequence_outside_set_input0_fits");
-                    }
-                }
-            }
-            for cl in &classes {
-                r.count(&format!("A.accepted.output_class.{:?}", cl));
-                if cl.ok() && !cl.at_supplied_path_or_listed() {
-                    r.count("A.accepted.output_derivable_only_at_other_path");
-                }
-            }
-            if lt >= LOCKTIME_THRESHOLD {
-                r.count("A.accepted.time_based_locktime");
-            }
-            if let Some(e) = tx_expiry {
-                if lt as u64 > height as u64 + MAX_LAG && lt <= e {
-                    r.count("A.accepted.locktime_justified_by_expiry_only");
-                }
-            }
-            if gen_script == "garbage" {
-                r.count(&format!("A.{}.accepted.garbage_redeemscript", k));
-            }
-            if bad.is_empty() {
-                r.count(&format!("A.{}.clean.accepted", k));
-            }
-            for b in &bad {
-                let sig_name = match *b {
-                    "version" => "c09:sweep-accepted-bad-version",
-                    "locktime" => "c09:sweep-accepted-bad-locktime",
-                    "sequence" => "c09:sweep-accepted-bad-sequence",
-                    "output" => "c09:sweep-accepted-unknown-output",
-                    _ => "c09:sweep-accepted-unparseable-htlc-script",
-                };
-                r.violation(sig_name, detail(json!({"result": "signed", "clause": b, "bad_output_indices": bad_outputs})));
-            }
-            // the signature must verify under the expected derived key over the supplied request
-            let verified = match (expected_key, p2wsh_sighash(&tx, input, &redeemscript, amount_sat, EcdsaSighashType::All)) {
-                (Some(pkey), Some(msg)) => Some(secp.verify_ecdsa(&msg, &sig, &pkey).is_ok()),
-                _ => None,
-            };
-            match verified {
-                Some(true) => r.count(&format!("A.{}.signature_verified", k)),
-                Some(false) => r.violation(
-                    "c09:signature-does-not-verify",
-                    detail(json!({"result": "signed", "signature": sig.to_string(),
-                                  "expected_key": expected_key.map(|k| k.to_string())})),
-                ),
-                None => r.inconclusive("harness: could not compute expected key / sighash for an accepted sweep"),
-            }
-            if r.get(&format!("A.{}.accepted", k)) <= 1 && cid.shard == 0 {
-                r.sample(detail(json!({"result": "signed", "signature": sig.to_string()})));
-            }
-        }
-    }
-
-    // generated-situation counters (what the workload reached, whatever the outcome)
-    for b in &bad {
-        r.count(&format!("A.gen.bad_{}", b));
-    }
     let mut cls: Vec<String> = classes.iter().map(|c| format!("{:?}", c)).collect();
     cls.sort();
     cls.dedup();
@@ -1263,12 +1433,127 @@ fn sweep_case(env: &mut Env, rng: &mut Rng, r: &mut Report, cid: &CaseId) -> Opt
     } else {
         ">h+3"
     };
-    r.distinct_hash(fnv_str(&format!(
-        "A:{}:{}:{}:{}:{}:{}:{}:{:?}:{}:{}:{}",
-        k, anchors, outcome, version == 2, lt_rel, n_in, input.min(3),
-        cls, gen_script, seq_allowed(kind, anchors, cp_delay, s0),
-        ss.map(|s| seq_allowed(kind, anchors, cp_delay, s)).unwrap_or(false)
-    )));
+    // the same reference judgement for every way the request reached the signer
+    for (p, entry, wire, ans) in answers.iter() {
+        let p = *p;
+        let outcome;
+        r.eval(1);
+        r.count(&format!("{}.{}.calls", p, k));
+        match ans {
+            Err(pm) => {
+                outcome = "panic";
+                poisoned = Some(ci);
+                r.count(&format!("{}.{}.panic", p, k));
+                r.set_add(&format!("{}.panics", p), &pm.chars().take(160).collect::<String>());
+            }
+            Ok(Err(e)) => {
+                outcome = "refused";
+                r.count(&format!("{}.{}.refused", p, k));
+                let tag = reason_tag(e);
+                if bad.is_empty() && !other_refusal {
+                    r.count(&format!("{}.{}.clean.refused", p, k));
+                    r.set_add(&format!("{}.{}.clean_refusal_reasons", p, k), &tag);
+                } else if bad.len() == 1 && !other_refusal {
+                    r.count(&format!("{}.{}.only_bad_{}.refused", p, k, bad[0]));
+                    r.count(&format!("{}.any.only_bad_{}.refused", p, bad[0]));
+                }
+                if other_refusal {
+                    r.count(&format!("{}.{}.bad_index_or_commit_num.refused", p, k));
+                }
+                r.set_add(&format!("{}.refusal_reasons", p), &tag);
+                if r.get(&format!("{}.{}.refused", p, k)) <= 1 && cid.shard == 0 {
+                    r.sample(detail(entry, wire, json!({"result": "refused", "message": e})));
+                }
+            }
+            Ok(Ok((sig, sighash))) => {
+                outcome = "accepted";
+                r.count(&format!("{}.{}.accepted", p, k));
+                // antecedents of the five rules
+                r.count(&format!("{}.rule.version.checked", p));
+                r.count(&format!("{}.rule.locktime.checked", p));
+                r.count(&format!("{}.rule.sequence.checked", p));
+                r.count_n(&format!("{}.rule.output.outputs_checked", p), classes.len() as u64);
+                r.count(&format!("{}.rule.signature.checked", p));
+                if classes.len() >= 2 {
+                    r.count(&format!("{}.accepted.multi_output", p));
+                    r.count(&format!("{}.{}.accepted.multi_output", p, k));
+                }
+                if classes.is_empty() {
+                    r.count(&format!("{}.accepted.zero_outputs", p));
+                }
+                if tx.input.len() >= 2 {
+                    r.count(&format!("{}.accepted.multi_input", p));
+                    if input != 0 {
+                        r.count(&format!("{}.accepted.signed_input_not_0", p));
+                        if !ss.map(|s| seq_allowed(kind, anchors, cp_delay, s)).unwrap_or(false) {
+                            // observation only (lenient disjunction, see DESIGN.md C09)
+                            r.count(&format!("{}.accepted.signed_input_sequence_outside_set_input0_fits", p));
+                        }
+                    }
+                }
+                for cl in &classes {
+                    r.count(&format!("{}.accepted.output_class.{:?}", p, cl));
+                    if cl.ok() && !cl.at_supplied_path_or_listed() {
+                        r.count(&format!("{}.accepted.output_derivable_only_at_other_path", p));
+                    }
+                }
+                if lt >= LOCKTIME_THRESHOLD {
+                    r.count(&format!("{}.accepted.time_based_locktime", p));
+                }
+                if let Some(e) = tx_expiry {
+                    if lt as u64 > height as u64 + MAX_LAG && lt <= e {
+                        r.count(&format!("{}.accepted.locktime_justified_by_expiry_only", p));
+                    }
+                }
+                if gen_script == "garbage" {
+                    r.count(&format!("{}.{}.accepted.garbage_redeemscript", p, k));
+                }
+                if bad.is_empty() {
+                    r.count(&format!("{}.{}.clean.accepted", p, k));
+                }
+                for b in &bad {
+                    let sig_name = match *b {
+                        "version" => "c09:sweep-accepted-bad-version",
+                        "locktime" => "c09:sweep-accepted-bad-locktime",
+                        "sequence" => "c09:sweep-accepted-bad-sequence",
+                        "output" => "c09:sweep-accepted-unknown-output",
+                        _ => "c09:sweep-accepted-unparseable-htlc-script",
+                    };
+                    r.violation(sig_name, detail(entry, wire, json!({"result": "signed", "clause": b, "bad_output_indices": bad_outputs})));
+                }
+                // the signature must verify under the expected derived key over the supplied request
+                // (a sweep is signed SIGHASH_ALL: the sighash byte of the handler's reply must say so)
+                let verified = match (expected_key, p2wsh_sighash(&tx, input, &redeemscript, amount_sat, EcdsaSighashType::All)) {
+                    (Some(pkey), Some(msg)) =>
+                        Some(*sighash == EcdsaSighashType::All as u8 && secp.verify_ecdsa(&msg, sig, &pkey).is_ok()),
+                    _ => None,
+                };
+                match verified {
+                    Some(true) => r.count(&format!("{}.{}.signature_verified", p, k)),
+                    Some(false) => r.violation(
+                        "c09:signature-does-not-verify",
+                        detail(entry, wire, json!({"result": "signed", "signature": sig.to_string(), "sighash_byte": sighash,
+                                      "expected_key": expected_key.map(|k| k.to_string())})),
+                    ),
+                    None => r.inconclusive("harness: could not compute expected key / sighash for an accepted sweep"),
+                }
+                if r.get(&format!("{}.{}.accepted", p, k)) <= 1 && cid.shard == 0 {
+                    r.sample(detail(entry, wire, json!({"result": "signed", "signature": sig.to_string()})));
+                }
+            }
+        }
+        r.distinct_hash(fnv_str(&format!(
+            "{}:{}:{}:{}:{}:{}:{}:{}:{:?}:{}:{}:{}",
+            p, k, anchors, outcome, version == 2, lt_rel, n_in, input.min(3),
+            cls, gen_script, seq_allowed(kind, anchors, cp_delay, s0),
+            ss.map(|s| seq_allowed(kind, anchors, cp_delay, s)).unwrap_or(false)
+        )));
+    }
+
+    // generated-situation counters (what the workload reached, whatever the outcome)
+    for b in &bad {
+        r.count(&format!("A.gen.bad_{}", b));
+    }
     poisoned
 }
 
@@ -1321,6 +1606,7 @@ fn gen_feerate(rng: &mut Rng, min: u64, max: u64) -> u32 {
 }
 
 fn htlc_tx_case(env: &mut Env, rng: &mut Rng, r: &mut Report, cid: &CaseId) -> Option<usize> {
+    let have_roots = env.ensure_roots(r);
     let ci = rng.usize(env.chans.len());
     let c = &env.chans[ci];
     let secp = &env.secp;
@@ -1692,15 +1978,96 @@ fn htlc_tx_case(env: &mut Env, rng: &mut Rng, r: &mut Report, cid: &CaseId) -> O
             }
         })
     });
-    r.eval(1);
-    r.count(&format!("B.{}.calls", k));
-    if muts.is_empty() {
-        r.count(&format!("B.{}.unmutated.calls", k));
+    let direct: Answer = match res {
+        Err(p) => Err(p),
+        Ok(Err(e)) => Ok(Err(e.message().to_string())),
+        Ok(Ok(ts)) => Ok(Ok((ts.sig, ts.typ as u8))),
+    };
+    let mut answers: Vec<(&'static str, String, Value, Answer)> = vec![];
+    let direct_panicked = direct.is_err();
+    let direct_tag = answer_tag(&direct);
+    answers.push(("B", entry.to_string(), Value::Null, direct));
+
+    // ---- the same request as a wire message through the protocol handler ----
+    if have_roots && !direct_panicked && rng.below(100) < HANDLER_PCT {
+        // SignRemoteHtlcTx (per-channel handler): remote per-commitment point, asserts one input / one output.
+        // SignLocalHtlcTx (per-channel) / SignAnyLocalHtlcTx (root, input index + peer id + dbid): the commitment
+        // number only - a request with an explicit per-commitment point cannot be expressed.
+        let legacy = is_cp || rng.chance(2, 5);
+        let name = if is_cp {
+            "SignRemoteHtlcTx"
+        } else if legacy {
+            "SignLocalHtlcTx"
+        } else {
+            "SignAnyLocalHtlcTx"
+        };
+        let sure_panic = if is_cp {
+            tx.input.len() != 1 || tx.output.len() != 1 // assert_eq! in the handler arm
+        } else {
+            tx.input.is_empty() || tx.output.is_empty() // psbt.inputs[input] / psbt.outputs[0]
+        };
+        if !is_cp && opt_pcp.is_some() {
+            r.count(&format!("handler.{}.not_sent_explicit_per_commitment_point_not_expressible", name));
+        } else if sure_panic && !rng.chance(1, 4) {
+            r.count(&format!("handler.{}.not_sent_input_output_count_the_handler_asserts_on", name));
+        } else {
+            // SignAnyLocalHtlcTx: `input` selects the PSBT input that carries the HTLC amount; the signed input is
+            // input 0 of the transaction whatever it says (sign_holder_htlc_tx has no input argument)
+            let amount_input = if !is_cp && !legacy && tx.input.len() >= 2 && rng.bool() { 1 } else { 0 };
+            if let Some((psbt, pinfo)) =
+                request_psbt(rng, &tx, amount_input, amount_sat, &redeemscript, &env.acct.public_key, None, Some(&witscript))
+            {
+                let (version, root) = rng.pick(&env.roots);
+                let option_anchors = if rng.chance(1, 8) { !anchors } else { anchors };
+                let wtx = wire_tx(&tx);
+                let wpsbt = wire_psbt(psbt);
+                let wscript = Octets(redeemscript.to_bytes());
+                let msg = if is_cp {
+                    WireMessage::SignRemoteHtlcTx(msgs::SignRemoteHtlcTx {
+                        tx: wtx, psbt: wpsbt, wscript, remote_per_commitment_point: PubKey(key_pcp.serialize()), option_anchors,
+                    })
+                } else if legacy {
+                    WireMessage::SignLocalHtlcTx(msgs::SignLocalHtlcTx { commitment_number: commit_num, tx: wtx, psbt: wpsbt, wscript, option_anchors })
+                } else {
+                    WireMessage::SignAnyLocalHtlcTx(msgs::SignAnyLocalHtlcTx {
+                        commitment_number: commit_num, tx: wtx, psbt: wpsbt, wscript, option_anchors,
+                        input: amount_input as u32, peer_id: PubKey(c.peer), dbid: c.dbid,
+                    })
+                };
+                let hres = if legacy {
+                    let h = root.for_new_client(1, PubKey(c.peer), c.dbid);
+                    report::catch(|| h.handle(msg))
+                } else {
+                    report::catch(|| root.handle(msg))
+                };
+                r.count(&format!("handler.{}.requests", name));
+                r.count(&format!("handler.protocol_version_{}.requests", version));
+                if let Some(ans) = handler_answer(hres, name, r) {
+                    r.count(&format!("handler.{}.{}", name, match &ans { Err(_) => "panic", Ok(Err(_)) => "refused", Ok(Ok(_)) => "ok" }));
+                    if amount_input != 0 && ans.as_ref().map(|a| a.is_ok()).unwrap_or(false) {
+                        r.count("handler.SignAnyLocalHtlcTx.ok.input_1_named_input_0_signed");
+                    }
+                    let t = answer_tag(&ans);
+                    if t == direct_tag {
+                        r.count("handler.B.same_outcome_as_direct_call");
+                    } else {
+                        // counted, not judged: the verdict on the handler's answer is the oracle's, below
+                        r.count(&format!("handler.B.{}.direct_{}_handler_{}", name, direct_tag, t));
+                    }
+                    let winfo = json!({"message": name, "protocol_version": version, "option_anchors": option_anchors,
+                                       "input": amount_input, "peer_id": hex::encode(c.peer), "dbid": c.dbid, "psbt": pinfo});
+                    answers.push(("hB", format!("protocol handler: {}", name), winfo, ans));
+                }
+            } else {
+                r.count("handler.psbt_not_built");
+            }
+        }
     }
 
-    let detail = |extra: Value| -> Value {
+    let detail = |entry: &str, wire: &Value, extra: Value| -> Value {
         json!({
             "entry_point": entry,
+            "wire_request": wire,
             "replay": cid.json(),
             "env": env.env_json(),
             "channel": c.summary(),
@@ -1724,106 +2091,122 @@ fn htlc_tx_case(env: &mut Env, rng: &mut Rng, r: &mut Report, cid: &CaseId) -> O
         })
     };
 
-    let outcome;
     let mut poisoned = None;
-    match res {
-        Err(p) => {
-            outcome = "panic";
-            poisoned = Some(ci);
-            r.count(&format!("B.{}.panic", k));
-            let short: String = p.chars().take(60).collect::<String>() + " .. " + p.rsplit('/').next().unwrap_or("");
-            r.set_add("B.panics", &short);
-            r.count(&format!("B.panic.mutations:{}", muts.join("+")));
-            if amount_sat > u64::MAX / 1000 {
-                r.count("B.panic.htlc_amount_sat_times_1000_overflows_u64");
-            }
-            if tx.output.is_empty() {
-                r.count("B.panic.tx_without_outputs");
-            }
+    let mut ms = muts.clone();
+    ms.sort();
+    ms.dedup();
+    // the same reference judgement for every way the request reached the signer
+    for (p, entry, wire, ans) in answers.iter() {
+        let p = *p;
+        let outcome;
+        r.eval(1);
+        r.count(&format!("{}.{}.calls", p, k));
+        if muts.is_empty() {
+            r.count(&format!("{}.{}.unmutated.calls", p, k));
         }
-        Ok(Err(e)) => {
-            outcome = "refused";
-            r.count(&format!("B.{}.refused", k));
-            let tag = reason_tag(e.message());
-            r.set_add("B.refusal_reasons", &tag);
-            if bad.is_empty() && !bad_fee && !other_refusal {
-                r.count(&format!("B.{}.clean.refused", k));
-                r.set_add("B.clean_refusal_reasons", &tag);
-            } else if !other_refusal {
-                if bad.len() == 1 && !bad_fee {
-                    r.count(&format!("B.only_bad_{}.refused", bad[0]));
-                    r.count("B.only_one_structure_clause_bad.refused");
-                } else if bad.is_empty() && bad_fee {
-                    r.count(if zero_fee { "B.only_bad_fee.zero_fee_channel.refused" } else { "B.only_bad_fee.feerate_channel.refused" });
+        match ans {
+            Err(pm) => {
+                outcome = "panic";
+                poisoned = Some(ci);
+                r.count(&format!("{}.{}.panic", p, k));
+                let short: String = pm.chars().take(60).collect::<String>() + " .. " + pm.rsplit('/').next().unwrap_or("");
+                r.set_add(&format!("{}.panics", p), &short);
+                r.count(&format!("{}.panic.mutations:{}", p, muts.join("+")));
+                if amount_sat > u64::MAX / 1000 {
+                    r.count(&format!("{}.panic.htlc_amount_sat_times_1000_overflows_u64", p));
+                }
+                if tx.output.is_empty() {
+                    r.count(&format!("{}.panic.tx_without_outputs", p));
                 }
             }
-            if r.get(&format!("B.{}.refused", k)) <= 1 && cid.shard == 0 {
-                r.sample(detail(json!({"result": "refused", "message": e.message()})));
-            }
-        }
-        Ok(Ok(ts)) => {
-            outcome = "accepted";
-            r.count(&format!("B.{}.accepted", k));
-            r.count(&format!("B.{}.accepted.{}", k, if anchors { "anchors" } else { "static_remotekey" }));
-            r.count("B.rule.structure.checked");
-            r.count(if zero_fee { "B.rule.zero_fee.checked" } else { "B.rule.feerate.checked" });
-            r.count("B.rule.signature.checked");
-            if let Some((so, _)) = script_class {
-                r.count(if so { "B.accepted.timeout_tx" } else { "B.accepted.success_tx" });
-            }
-            if !muts.is_empty() {
-                r.count("B.accepted.mutated");
-                for m in &muts {
-                    r.count(&format!("B.accepted.with_mutation.{}", m));
+            Ok(Err(e)) => {
+                outcome = "refused";
+                r.count(&format!("{}.{}.refused", p, k));
+                let tag = reason_tag(e);
+                r.set_add(&format!("{}.refusal_reasons", p), &tag);
+                if bad.is_empty() && !bad_fee && !other_refusal {
+                    r.count(&format!("{}.{}.clean.refused", p, k));
+                    r.set_add(&format!("{}.clean_refusal_reasons", p), &tag);
+                } else if !other_refusal {
+                    if bad.len() == 1 && !bad_fee {
+                        r.count(&format!("{}.only_bad_{}.refused", p, bad[0]));
+                        r.count(&format!("{}.only_one_structure_clause_bad.refused", p));
+                    } else if bad.is_empty() && bad_fee {
+                        r.count(&format!("{}.only_bad_fee.{}.refused", p, if zero_fee { "zero_fee_channel" } else { "feerate_channel" }));
+                    }
+                }
+                if r.get(&format!("{}.{}.refused", p, k)) <= 1 && cid.shard == 0 {
+                    r.sample(detail(entry, wire, json!({"result": "refused", "message": e})));
                 }
             }
-            if tx.input.len() > 1 || tx.output.len() > 1 {
-                r.count("B.accepted.anchors_extra_inputs_or_outputs_not_covered_by_sighash");
-            }
-            if bad.is_empty() && !bad_fee {
-                r.count(&format!("B.{}.clean.accepted", k));
-            }
-            if !bad.is_empty() {
-                r.violation("c09:htlc-tx-accepted-noncanonical", detail(json!({"result": "signed", "clauses": bad})));
-            }
-            if bad_fee {
-                // a separate signature for the one shape where amount_sat * 1000 does not fit in u64, so
-                // that any other way of getting an out-of-range fee signed keeps its own signature
-                let sig_name = if amount_sat > u64::MAX / 1000 {
-                    "c09:htlc-tx-accepted-bad-feerate-amount-msat-overflows-u64"
-                } else {
-                    "c09:htlc-tx-accepted-bad-feerate"
-                };
-                let out = tx.output.get(0).map(|o| o.value.to_sat()).unwrap_or(0);
-                r.violation(
-                    sig_name,
-                    detail(json!({"result": "signed", "implied_fee_sat": (amount_sat as u128 - out.min(amount_sat) as u128).to_string(),
-                                  "zero_fee_htlc_channel": zero_fee, "signature": ts.sig.to_string()})),
-                );
-            }
-            let want_ty = if anchors { EcdsaSighashType::SinglePlusAnyoneCanPay } else { EcdsaSighashType::All };
-            if ts.typ != want_ty {
-                r.violation(
-                    "c09:htlc-tx-wrong-sighash-type",
-                    detail(json!({"result": "signed", "sighash_type": format!("{:?}", ts.typ), "expected": format!("{:?}", want_ty)})),
-                );
-            }
-            match p2wsh_sighash(&tx, 0, &redeemscript, amount_sat, want_ty) {
-                Some(msg) =>
-                    if secp.verify_ecdsa(&msg, &ts.sig, &sign_key).is_ok() {
-                        r.count(&format!("B.{}.signature_verified", k));
+            Ok(Ok((sig, sighash))) => {
+                outcome = "accepted";
+                r.count(&format!("{}.{}.accepted", p, k));
+                r.count(&format!("{}.{}.accepted.{}", p, k, if anchors { "anchors" } else { "static_remotekey" }));
+                r.count(&format!("{}.rule.structure.checked", p));
+                r.count(&format!("{}.rule.{}.checked", p, if zero_fee { "zero_fee" } else { "feerate" }));
+                r.count(&format!("{}.rule.signature.checked", p));
+                if let Some((so, _)) = script_class {
+                    r.count(&format!("{}.accepted.{}", p, if so { "timeout_tx" } else { "success_tx" }));
+                }
+                if !muts.is_empty() {
+                    r.count(&format!("{}.accepted.mutated", p));
+                    for m in &muts {
+                        r.count(&format!("{}.accepted.with_mutation.{}", p, m));
+                    }
+                }
+                if tx.input.len() > 1 || tx.output.len() > 1 {
+                    r.count(&format!("{}.accepted.anchors_extra_inputs_or_outputs_not_covered_by_sighash", p));
+                }
+                if bad.is_empty() && !bad_fee {
+                    r.count(&format!("{}.{}.clean.accepted", p, k));
+                }
+                if !bad.is_empty() {
+                    r.violation("c09:htlc-tx-accepted-noncanonical", detail(entry, wire, json!({"result": "signed", "clauses": bad})));
+                }
+                if bad_fee {
+                    // a separate signature for the one shape where amount_sat * 1000 does not fit in u64, so
+                    // that any other way of getting an out-of-range fee signed keeps its own signature
+                    let sig_name = if amount_sat > u64::MAX / 1000 {
+                        "c09:htlc-tx-accepted-bad-feerate-amount-msat-overflows-u64"
                     } else {
-                        r.violation(
-                            "c09:signature-does-not-verify",
-                            detail(json!({"result": "signed", "signature": ts.sig.to_string(), "sighash_type": format!("{:?}", ts.typ)})),
-                        );
-                    },
-                None => r.inconclusive("harness: could not compute the sighash of an accepted HTLC tx"),
-            }
-            if r.get(&format!("B.{}.accepted", k)) <= 1 && cid.shard == 0 {
-                r.sample(detail(json!({"result": "signed", "signature": ts.sig.to_string(), "sighash_type": format!("{:?}", ts.typ)})));
+                        "c09:htlc-tx-accepted-bad-feerate"
+                    };
+                    let out = tx.output.get(0).map(|o| o.value.to_sat()).unwrap_or(0);
+                    r.violation(
+                        sig_name,
+                        detail(entry, wire, json!({"result": "signed", "implied_fee_sat": (amount_sat as u128 - out.min(amount_sat) as u128).to_string(),
+                                      "zero_fee_htlc_channel": zero_fee, "signature": sig.to_string()})),
+                    );
+                }
+                let want_ty = if anchors { EcdsaSighashType::SinglePlusAnyoneCanPay } else { EcdsaSighashType::All };
+                if *sighash != want_ty as u8 {
+                    r.violation(
+                        "c09:htlc-tx-wrong-sighash-type",
+                        detail(entry, wire, json!({"result": "signed", "sighash_type": format!("0x{:02x}", sighash), "expected": format!("{:?}", want_ty)})),
+                    );
+                }
+                match p2wsh_sighash(&tx, 0, &redeemscript, amount_sat, want_ty) {
+                    Some(msg) =>
+                        if secp.verify_ecdsa(&msg, sig, &sign_key).is_ok() {
+                            r.count(&format!("{}.{}.signature_verified", p, k));
+                        } else {
+                            r.violation(
+                                "c09:signature-does-not-verify",
+                                detail(entry, wire, json!({"result": "signed", "signature": sig.to_string(), "sighash_type": format!("0x{:02x}", sighash)})),
+                            );
+                        },
+                    None => r.inconclusive("harness: could not compute the sighash of an accepted HTLC tx"),
+                }
+                if r.get(&format!("{}.{}.accepted", p, k)) <= 1 && cid.shard == 0 {
+                    r.sample(detail(entry, wire, json!({"result": "signed", "signature": sig.to_string(), "sighash_type": format!("0x{:02x}", sighash)})));
+                }
             }
         }
+        r.distinct_hash(fnv_str(&format!(
+            "{}:{}:{}:{:?}:{}:{:?}:{}:{:?}",
+            p, k, anchors, script_class.map(|s| s.0), outcome, bad, bad_fee, ms
+        )));
     }
     for b in &bad {
         r.count(&format!("B.gen.bad_{}", b));
@@ -1831,13 +2214,6 @@ fn htlc_tx_case(env: &mut Env, rng: &mut Rng, r: &mut Report, cid: &CaseId) -> O
     if bad_fee {
         r.count("B.gen.bad_fee");
     }
-    let mut ms = muts.clone();
-    ms.sort();
-    ms.dedup();
-    r.distinct_hash(fnv_str(&format!(
-        "B:{}:{}:{:?}:{}:{:?}:{}:{:?}",
-        k, anchors, script_class.map(|s| s.0), outcome, bad, bad_fee, ms
-    )));
     poisoned
 }
 
@@ -1924,6 +2300,34 @@ fn main() {
     }
     report.require("B.only_bad_fee.feerate_channel.refused", 50);
     report.require("B.only_bad_fee.zero_fee_channel.refused", 20);
+    // the protocol-handler entry: every message really sent, answered both ways, and judged by the same rules
+    for m in [
+        "SignAnyDelayedPaymentToUs", "SignDelayedPaymentToUs", "SignAnyRemoteHtlcToUs", "SignRemoteHtlcToUs",
+        "SignAnyPenaltyToUs", "SignPenaltyToUs", "SignRemoteHtlcTx", "SignLocalHtlcTx", "SignAnyLocalHtlcTx",
+    ] {
+        report.require(&format!("handler.{}.ok", m), 50);
+        report.require(&format!("handler.{}.refused", m), 50);
+    }
+    for v in PROTOCOL_VERSIONS {
+        report.require(&format!("handler.protocol_version_{}.requests", v), 500);
+    }
+    for k in ["delayed", "cp_htlc", "justice"] {
+        report.require(&format!("hA.{}.accepted", k), 300);
+        report.require(&format!("hA.{}.signature_verified", k), 300);
+        report.require(&format!("hA.{}.accepted.multi_output", k), 50);
+        report.require(&format!("hA.{}.refused", k), 300);
+    }
+    for cl in ["version", "locktime", "sequence", "output"] {
+        report.require(&format!("hA.any.only_bad_{}.refused", cl), 10);
+    }
+    report.require("hA.accepted.signed_input_not_0", 50);
+    report.require("hA.accepted.output_class.WalletAtPath", 100);
+    for k in ["holder", "counterparty"] {
+        report.require(&format!("hB.{}.accepted", k), 200);
+        report.require(&format!("hB.{}.signature_verified", k), 200);
+        report.require(&format!("hB.{}.refused", k), 200);
+    }
+    report.require("hB.only_one_structure_clause_bad.refused", 100);
     report.require("selfcheck.hand_built_htlc_tx_equals_ldk", 1000);
     report.require("selfcheck.htlc_template_matches_ldk_script", 500);
 
@@ -1932,13 +2336,14 @@ fn main() {
         FinishSpec {
             cli: &cli,
             level: "exploration",
-            rule: "generated sweeps (sign_delayed_sweep / sign_counterparty_htlc_sweep / sign_justice_sweep: 1-3 inputs, 0-3 outputs from {wallet at supplied/other path p2wpkh|p2sh-p2wpkh|p2tr, allowlisted script, allowlisted-xpub child, removed allowlist entry, foreign-xpub child, unknown}, versions, locktimes around height+2 / HTLC expiry / 5e8, sequences around the contest delay and {0,1,fffffffd,ffffffff}, offered/received/garbage HTLC scripts) and canonical-then-mutated BOLT-3 HTLC transactions (sign_holder_htlc_tx / sign_counterparty_htlc_tx) on StaticRemoteKey and AnchorsZeroFeeHtlc channels, regtest and testnet worlds, growing chain, changing allowlists; oracle on Ok = clauses of the property (every output wallet-derivable or allowlisted; version 2; locktime <= height+2(+1 slack) or already-past time or <= expiry of the presented received-HTLC script; sequence of input 0 or of the signed input in the kind's set; HTLC tx equal to the BOLT-3 tx rebuilt here from basepoints with fee in policy range / zero; signature verifies under the key derived here). distinct = (entry point, anchors, outcome, clause pattern, locktime class, input/output shape, output classes, script kind / mutation set)",
+            rule: "generated sweeps (sign_delayed_sweep / sign_counterparty_htlc_sweep / sign_justice_sweep: 1-3 inputs, 0-3 outputs from {wallet at supplied/other path p2wpkh|p2sh-p2wpkh|p2tr, allowlisted script, allowlisted-xpub child, removed allowlist entry, foreign-xpub child, unknown}, versions, locktimes around height+2 / HTLC expiry / 5e8, sequences around the contest delay and {0,1,fffffffd,ffffffff}, offered/received/garbage HTLC scripts) and canonical-then-mutated BOLT-3 HTLC transactions (sign_holder_htlc_tx / sign_counterparty_htlc_tx) on StaticRemoteKey and AnchorsZeroFeeHtlc channels, regtest and testnet worlds, growing chain, changing allowlists; oracle on Ok = clauses of the property (every output wallet-derivable or allowlisted; version 2; locktime <= height+2(+1 slack) or already-past time or <= expiry of the presented received-HTLC script; sequence of input 0 or of the signed input in the kind's set; HTLC tx equal to the BOLT-3 tx rebuilt here from basepoints with fee in policy range / zero; signature verifies under the key derived here). Every request is judged the same way when it is also sent (35% of the cases) as a wire message through the protocol handler: SignAnyDelayedPaymentToUs / SignAnyRemoteHtlcToUs / SignAnyPenaltyToUs (root handler, input index + peer id + dbid), SignDelayedPaymentToUs / SignRemoteHtlcToUs / SignPenaltyToUs (per-channel handler, input 0), SignRemoteHtlcTx, SignLocalHtlcTx / SignAnyLocalHtlcTx, protocol versions 4, 5, 6; tx + PSBT (spent amount in inputs[input].witness_utxo with different amounts on the other inputs, wallet path as bip32 derivation / taproot key origin of output 0 with other paths on the other outputs, HTLC-tx output witness script in outputs[0], the PSBT's inner tx differing from the outer one in a third of the requests); the reply's sighash byte is part of the signature check. distinct = (entry point, anchors, outcome, clause pattern, locktime class, input/output shape, output classes, script kind / mutation set)",
             assumptions: vec![
                 "rust-bitcoin sighash/serialization, libsecp256k1 and LDK get_htlc_redeemscript are trusted (shared with the code under test)".into(),
                 "lenient readings, as stated in DESIGN.md: sequence judged on input 0 OR the signed input; an output derivable from the wallet at a path other than the supplied one counts as wallet-derivable; one block of slack on the locktime bound; time-based locktimes count as in-bound when already past; 0xfffffffe is tolerated next to {0,fffffffd,ffffffff}".into(),
                 "sweep fee is not judged (policy-sweep-fee-range is documented as not implemented and the property does not state it); a sweep with zero outputs is only counted".into(),
                 "with anchors the HTLC signature is SINGLE|ANYONECANPAY: extra inputs/outputs beyond index 0 are not part of the signed message and are only counted".into(),
                 "sign_holder_htlc_tx_phase2 is out of scope (property text)".into(),
+                "protocol handler entry: handler panics on malformed requests (no outputs: wallet_paths[0]; input index beyond the PSBT inputs; SignRemoteHtlcTx assert_eq on one input / one output) are counted, the channel is replaced, nothing is judged; most such requests are not sent. SignLocalHtlcTx / SignAnyLocalHtlcTx cannot carry an explicit per-commitment point: those cases are not sent. SignAnyLocalHtlcTx's input index only selects the PSBT input carrying the amount (the signed input is input 0). SignHtlcTxMingle is an alias of SignWithdrawal in the handler (wallet inputs only, no HTLC signature): not a C09 request, not sent. A wrong wallet-path hint can only turn an acceptance into a refusal, which this one-directional oracle does not judge".into(),
             ],
             start,
             extra_coverage: Default::default(),
